@@ -10,11 +10,11 @@ for d in "$@"; do
   git -C $WT checkout -q -- . ; git -C $WT clean -fdq -e target
   if ! git -C $WT apply $d/patch.diff 2>/tmp/confirm_err_$$; then echo "$id: PATCH DOES NOT APPLY: $(head -2 /tmp/confirm_err_$$)"; continue; fi
   (cd $WT && cargo build --offline --features verif-hooks >/dev/null 2>&1) || { echo "$id: does not build with hooks"; continue; }
-  suite=$(cd $WT && cargo test --workspace --offline 2>&1 | grep -E "^test result" | awk '{p+=$4; f+=$6} END {print p" passed "f" failed"}')
+  suite=$(cd $WT && cargo test --workspace --offline 2>&1 | grep -E "^test result:" | awk '{p+=$4; f+=$6} END {print p" passed "f" failed"}')
   cp $d/demo.rs $WT/tests/demo_seeded.rs 2>/dev/null || { mkdir -p $WT/tests; cp $d/demo.rs $WT/tests/demo_seeded.rs; }
-  with=$(cd $WT && cargo test --offline --test demo_seeded 2>&1 | grep -E "^test result" | head -1)
+  with=$(cd $WT && cargo test --offline --test demo_seeded 2>&1 | grep -E "^test result:" | head -1)
   git -C $WT apply -R $d/patch.diff
-  without=$(cd $WT && cargo test --offline --test demo_seeded 2>&1 | grep -E "^test result" | head -1)
+  without=$(cd $WT && cargo test --offline --test demo_seeded 2>&1 | grep -E "^test result:" | head -1)
   rm -f $WT/tests/demo_seeded.rs
   echo "$id: suite[$suite] demo-with-patch[$with] demo-without[$without]"
   if echo "$suite" | grep -q " 0 failed" && echo "$with" | grep -q "FAILED" && echo "$without" | grep -q "test result: ok"; then
